@@ -239,6 +239,11 @@ def _do_call(sim, spec, call):
             sim.new(n_obs=call["n_obs"], n_clusters=call["n_clusters"], **({"clusters_std": call["cstd"]} if call.get("cstd") else {}))
         else:
             grid = np.arange(spec["m"]) if spec.get("grid_int") else np.linspace(0, 1, spec["m"])
+            if spec.get("grid_var") == "dec":
+                grid = grid[::-1].copy()
+            elif spec.get("grid_var") == "neg":
+                # Zhang-Chen's noise scale is sqrt(0.1 (1 + t)): only t > -1 is legitimate for Datasets
+                grid = grid - (0.5 if spec["kind"] == "ds" else 3)
             sim.new(n_obs=call["n_obs"], argvals=grid, **call.get("kw", {}))
     elif op == "noise":
         sim.add_noise(noise_variance=call["var"])
@@ -255,7 +260,8 @@ def _do_call(sim, spec, call):
 def _gen_spec(rng: Rng):
     kind = rng.choice(["kl", "kl", "kl", "kl2d", "klmulti", "klmixed", "klobj", "klmobj", "bms", "bmg", "bmf", "ds", "ds"])
     return dict(kind=kind, fam=rng.choice(KL_FAMILIES), fam2=rng.choice(["fourier", "legendre", "wiener"]),
-                K=rng.choice([1, 2, 3, 5]) if kind != "kl" else rng.choice([2, 3, 5]), m=rng.randint(4, 9), grid_int=rng.random() < 0.3)
+                K=rng.choice([1, 2, 3, 5]) if kind != "kl" else rng.choice([2, 3, 5]), m=rng.randint(4, 9), grid_int=rng.random() < 0.3,
+                grid_var=rng.choice(["inc", "inc", "dec", "neg"]))
 
 
 def _gen_calls(rng: Rng, spec, n_max):
@@ -288,6 +294,7 @@ def gen_cases(rng: Rng, tier):
         for si, sd in enumerate((0, 7, 2**31 + 11)):
             spec = _gen_spec(rng)
             spec["kind"] = ckind
+            spec["grid_var"] = ("inc", "dec", "neg")[si]
             spec["K"] = 3 if ckind in ("kl", "klobj", "klmulti", "klmobj") else spec["K"]
             calls = [dict(op="new", n_obs=(3, 5, 2)[si], n_clusters=(1, 2, 3)[(ci + si) % 3], g_before=1, g_between=2),
                      dict(op=("noise", "comb", "sparse")[(ci + si) % 3], var=0.5, p=0.5, e=0.1, g_before=0, g_between=1),
@@ -342,20 +349,30 @@ def gen_cases(rng: Rng, tier):
         if opt in ("cstd_array", "both"):
             c["cstd"] = [[rs(rng.choice([Fraction(1, 4), Fraction(1), Fraction(4), Fraction(9, 4)])) for _ in range(kc)] for _ in range(nf)]
         yield c
-    for _ in range(nb):
-        name = rng.choice(["standard", "standard", "geometric"])
-        m = rng.choice([2, 3, 5, 9])
+    # legal-but-unusual sampling grids, the same every run: decreasing order, negative domain, a single step, integer dtype
+    bm_grid = [(name, order, t0, m, gd) for name in ("standard", "geometric") for order in ("inc", "dec")
+               for (t0, m, gd) in ((Fraction(0), 5, "float64"), (Fraction(-3), 4, "float64"), (Fraction(0), 2, "float64"), (Fraction(0), 6, "int64"))]
+    for bi in range(len(bm_grid) + nb):
+        if bi < len(bm_grid):
+            name, order, t0_, m, gd_ = bm_grid[bi]
+        else:
+            name, order, t0_, gd_ = rng.choice(["standard", "standard", "geometric"]), rng.choice(["inc", "inc", "dec"]), None, None
+            m = rng.choice([2, 3, 5, 9])
         span = rng.choice([Fraction(1), Fraction(4), Fraction(1, 4)])
         n_obs = rng.randint(1, 3)
-        c = dict(kind="bm", name=name, m=m, t0=rs(rng.choice([0, -1, 2])), span=rs(span), n_obs=n_obs, seeded=rng.random() < 0.7,
+        c = dict(kind="bm", name=name, m=m, t0=rs(rng.choice([0, -1, 2, -5])), span=rs(span), n_obs=n_obs, seeded=rng.random() < 0.7, order=order,
                  post=rng.choice([[], ["sparse"], ["comb"], ["noise", "sparse"], ["comb", "noise"]]),
                  init=rs(rng.choice([Fraction(0), Fraction(1), Fraction(-3, 2), Fraction(5, 2), Fraction(1, 4)])),
                  default_init=rng.random() < 0.25,
                  gdtype=rng.choice(["float64", "float64", "int64", "int64", "int32"]), istart=rng.choice([0, -3, 10]), istep=rng.choice([1, 2, 5]),
                  Z=[[rs(x) for x in rng.dyadics(m, -3, 3, 3)] for _ in range(n_obs)])
+        if t0_ is not None:
+            c["t0"], c["gdtype"] = rs(t0_), gd_
         if name == "geometric":
             c["mu"] = float(rng.choice([0.0, 0.5, -1.0]))
             c["sigma"] = float(rng.choice([1.0, 0.5, 2.0]))
+            if c["default_init"] is False and F(c["init"]) <= 0 and bi < len(bm_grid):
+                c["init"] = "5/2"
         yield c
     for _ in range(20 if tier == "quick" else 200):
         m, n_obs = rng.randint(2, 9), rng.randint(1, 4)
@@ -377,7 +394,9 @@ def gen_cases(rng: Rng, tier):
         if off >= 10**3 or off <= -(10**3):
             h = rng.choice([Fraction(1), Fraction(1, 4), Fraction(5), Fraction(1, 8)])
         t = [Fraction(off) + i * h for i in range(m)]
-        mode = rng.choice(["regular", "perturbed_big", "perturbed_tiny", "one_off", "perturbed_big"])
+        mode = rng.choice(["regular", "perturbed_big", "perturbed_tiny", "one_off", "perturbed_big", "decreasing"])
+        if mode == "decreasing":
+            t = t[::-1]
         if mode == "perturbed_big" and m >= 3:
             j = rng.randint(1, m - 1)
             t[j] += h * Fraction(1, rng.choice([4, 64, 1024]))
@@ -615,6 +634,8 @@ def _impl_bm(case):
     else:
         # a regular grid given with an integer dtype (np.arange(start, stop, step))
         t = (int(case["istart"]) + int(case["istep"]) * np.arange(m)).astype(gd)
+    if case.get("order") == "dec":
+        t = t[::-1].copy()      # a regular grid listed in decreasing order is accepted by the unchanged tree
     sim = Brownian(name=name, random_state=5 if case["seeded"] else None)
     stub = _ScriptNormal(case["Z"])
     kw = {}
@@ -1065,6 +1086,8 @@ def oracle(case, impl):
                 if call["op"] in ("noise", "comb") and r["dig"].get("finite") and r["dig"].get("finite_noisy") is False:
                     bad("structure_after_operations", entry, f"call {ci} ({call['op']}): noisy curves of finite data contain NaN", ["data_changed_by_later_op"])
                 prev_dig[nm] = r["dig"]
+            if call["op"] == "new" and a["status"] == "ok" and spec["kind"] in ("bms", "bmg", "bmf", "ds") and a["dig"].get("finite") is False:
+                bad("brownian_finite", entry, f"call {ci}: the simulated paths are not finite (grid: {spec.get('grid_var', 'inc')}{', integer' if spec.get('grid_int') else ''})", ["unusual_grid"])
             if call["op"] == "new" and a["status"] == "ok":
                 if prev_new is not None and prev_new == a["dig"]["data"] and call["n_obs"] > 0 and a["dig"].get("finite"):
                     bad("successive_differ", entry, f"call {ci}: two successive draws of one simulator are identical")
@@ -1158,6 +1181,8 @@ def oracle(case, impl):
             bad("brownian", "Brownian.new", f"raised {impl['status']}: {impl.get('msg')}")
             return vs
         vals = impl["values"]
+        if any(not np.all(np.isfinite(np.asarray(row, dtype=float))) for row in vals):
+            bad("brownian_finite", "Brownian.new", f"paths on the grid {case.get('order', 'inc')}/{case.get('gdtype', 'float64')} are not finite: {vals[0]}", ["unusual_grid"] if case.get("order") == "dec" else [])
         if not impl["grid_same"]:
             bad("brownian", "Brownian.new", "the paths are not on the requested grid")
         if case["seeded"] and impl["glob_changed"]:
@@ -1254,7 +1279,7 @@ def classify(case, impl):
         tags += ["shape:" + case["spec"]["kind"], "fam:" + case["spec"]["fam"], "opt:" + case["opt"], "clusters:" + str(case["n_clusters"]),
                  "is_normalized:" + str(bool(case["spec"].get("norm"))), "argvals:" + ("default" if case["spec"].get("noargs") else "given")]
     elif case["kind"] == "bm":
-        tags += ["bm:" + case["name"], "status:" + impl["status"].split(":")[0], "grid_dtype:" + case.get("gdtype", "float64")]
+        tags += ["bm:" + case["name"], "status:" + impl["status"].split(":")[0], "grid_dtype:" + case.get("gdtype", "float64"), "grid_order:" + case.get("order", "inc")]
     elif case["kind"] == "grid":
         tags += ["grid:" + case["mode"], "status:" + impl["status"].split(":")[0], "grid_offset:" + ("small" if abs(int(case.get("offset", "0"))) < 1000 else "large")]
     elif case["kind"] == "eig":
